@@ -71,6 +71,70 @@ fn main() {
                 println!("--- obs\n{}", obs);
             }
         }
+        "record-neg" => {
+            // C03: groups of executions of one program with one clause negated in the two ways
+            let seed: u64 = m.get("seed").and_then(|s| s.parse().ok()).unwrap_or(1);
+            let n: usize = m.get("n").and_then(|s| s.parse().ok()).unwrap_or(100);
+            let cfg = cfg_of(m.get("cfg").map(|s| s.as_str()).unwrap_or("core"));
+            let out = m.get("out").expect("--out");
+            let mut f = std::io::BufWriter::new(std::fs::File::create(out).unwrap());
+            let mut r = Rng::new(seed);
+            let mut i = 0usize;
+            let mut grp = 0usize;
+            while grp < n {
+                let mut rr = r.fork();
+                let mut g = gen::Gen { r: &mut rr, cfg: cfg.clone() };
+                let doc = g.doc();
+                let mut prog = g.program(&doc);
+                let ptrs: Vec<String> = gv::xform::clause_pointers(&prog)
+                    .into_iter()
+                    .filter(|p| { let c = prog.pointer(p).unwrap(); c["c"] == "gac" })
+                    .collect();
+                if ptrs.is_empty() { continue; }
+                let ptr = ptrs[rr.below(ptrs.len())].clone();
+                let op = prog.pointer(&ptr).unwrap()["op"].as_str().unwrap().to_string();
+                // named-rule negation: two extra rules `nrp { R }` and `nrn { not R }`
+                let names: Vec<String> = prog["rules"].as_array().unwrap().iter().map(|x| x["n"].as_str().unwrap().to_string()).collect();
+                let target = names[rr.below(names.len())].clone();
+                let rules = prog["rules"].as_array_mut().unwrap();
+                rules.push(json!({"n":"nrp","w":[],"lets":[],"b":[[{"c":"named","n":target,"neg":false}]]}));
+                rules.push(json!({"n":"nrn","w":[],"lets":[],"b":[[{"c":"named","n":target,"neg":true}]]}));
+                grp += 1;
+                let vars: Vec<(&str, bool, bool)> = if gv::xform::has_op_not(&op) {
+                    vec![("B", false, false), ("N", true, false), ("O", false, true), ("NO", true, true)]
+                } else {
+                    vec![("B", false, false), ("N", true, false)]
+                };
+                for (var, neg, on) in vars {
+                    let p2 = gv::xform::toggle(&prog, &ptr, neg, on);
+                    let rules_text = render::render_file(&p2);
+                    let mut obs = exec::observe(&rules_text, &val::to_json_text(&doc), false);
+                    if obs["kind"] == "ok" {
+                        let t = exec::status_tree(&obs["tree"]);
+                        obs["tree"] = t;
+                    }
+                    i += 1;
+                    writeln!(f, "{}", json!({"i": i, "grp": grp, "var": var, "ptr": ptr, "target": target, "prog": p2, "doc": doc, "obs": obs})).unwrap();
+                }
+            }
+        }
+        "reobserve" => {
+            // re-run one recorded line against the current implementation
+            let stdin = std::io::stdin();
+            for l in stdin.lock().lines() {
+                let l = l.unwrap();
+                if l.trim().is_empty() { continue; }
+                let mut j: J = serde_json::from_str(&l).unwrap();
+                let mut obs = exec::observe(&render::render_file(&j["prog"]), &val::to_json_text(&j["doc"]), false);
+                if obs["kind"] == "ok" {
+                    let t = exec::status_tree(&obs["tree"]);
+                    obs["tree"] = t;
+                }
+                j["obs"] = obs;
+                j["i"] = json!(1);
+                println!("{}", j);
+            }
+        }
         "replay-e1" => {
             // spec -> impl: execute TLC's E1 cases against the implementation
             let tables: J = serde_json::from_str(&std::fs::read_to_string(m.get("tables").expect("--tables")).unwrap()).unwrap();
